@@ -306,6 +306,10 @@ def run(chk):
             fail_calls = set(rng.sample(range(ncalls), rng.choice([1, 1, 2])))
             if rng.random() < 0.5:
                 fail_calls = {c for c in fail_calls if c < 8} or {rng.randrange(0, 6)}
+        if k in (1, 3):
+            # always present: one early segment fails, every later one succeeds, and the run crosses a core-collapse time afterwards
+            mode, fail_calls, tout = "inject", {2 + k}, [3000.0, 9000.0, 12000.0]      # (9000: a grid point past tcc = 6000 before the last segment)
+            cls_name = "EvolvedMF" if k == 1 else "EvolvedMFWithBH"
 
         class FOde(real_ode):
             def set_integrator(self, name, **kw):
@@ -327,7 +331,9 @@ def run(chk):
             with warnings.catch_warnings(record=True) as w:
                 warnings.simplefilter("always")
                 esc = (lambda tt: -40.0 * (1 + math.cos(tt))) if mode == "native" else -10.0
-                kw = dict(BASE, tout=tout, esc_rate=esc)
+                kw = dict(BASE, tout=tout, esc_rate=esc if k not in (1, 3) else -2.0)      # (-2 / Myr: the cluster survives to the last age)
+                if k % 2:
+                    kw["tcc"] = 6000.0 if k in (1, 3) else float(rng.choice([2000.0, 6000.0, 9000.0]))      # a core-collapse time inside the run: a failure before it must not be forgotten after it
                 if cls_name == "EvolvedMF":
                     m = emf.EvolvedMF.from_powerlaw(**kw)
                 else:
@@ -351,7 +357,7 @@ def run(chk):
             per_call.append(bool(ok_i))
             prev = e["flag_after"]
         any_failed = any(not e["flag_after"] for e in log)
-        case = dict(cls=cls_name, tout=tout, mode=mode, failed_calls=sorted(fail_calls), ncalls=len(log))
+        case = dict(cls=cls_name, tout=tout, mode=mode, failed_calls=sorted(fail_calls), ncalls=len(log), tcc=kw.get("tcc", 0.0))
         chk.note_distinct(case)
         chk.count("flag runs (%s)" % mode)
         if any_failed:
